@@ -56,6 +56,14 @@ op("bool_land", "m && m2", "MM", ALL_TYPES, "M")
 op("bool_lor", "m || m2", "MM", ALL_TYPES, "M")
 
 
+# C04
+op("load_aligned", "B::load_aligned(p)", "p", ALL_TYPES)
+op("load_unaligned", "B::load_unaligned(p)", "p", ALL_TYPES)
+op("store_aligned", "(a.store_aligned(q), a)", "Bq", ALL_TYPES)
+op("store_unaligned", "(a.store_unaligned(q), a)", "Bq", ALL_TYPES)
+op("broadcast", "B(s)", "S", ALL_TYPES)
+
+
 def entry_name(opn, tid, aid):
     return "e_%s__%s__%s" % (opn, tid, aid)
 
@@ -65,7 +73,7 @@ def entry_text(opn, tid, aid):
     T, A = TYPES[tid][0], ARCHS[aid][0]
     B = "xsimd::batch<%s, %s>" % (T, A)
     M = "xsimd::batch_bool<%s, %s>" % (T, A)
-    names = {"B": iter(["a", "b", "c"]), "M": iter(["m", "m2"]), "I": iter(["n"]), "S": iter(["s"])}
+    names = {"B": iter(["a", "b", "c"]), "M": iter(["m", "m2"]), "I": iter(["n"]), "S": iter(["s"]), "p": iter(["p"]), "q": iter(["q"])}
     params, prologue = [], []
     for k in kinds:
         nm = next(names[k])
@@ -79,9 +87,13 @@ def entry_text(opn, tid, aid):
             params.append("int %s" % nm)
         elif k == "S":
             params.append("%s %s" % (T, nm))
+        elif k == "p":
+            params.append("%s const* %s" % (T, nm))
+        elif k == "q":
+            params.append("%s* %s" % (T, nm))
     R = {"B": B, "M": M, "X": "uint64_t"}[ret]
-    return 'extern "C" void %s(%s* r%s) { %s *r = %s; }\n' % (entry_name(opn, tid, aid), R, "".join(", " + p for p in params),
-                                                            " ".join(prologue), expr)
+    return 'extern "C" void %s(%s* r%s) { typedef %s B; %s *r = %s; }\n' % (entry_name(opn, tid, aid), R, "".join(", " + p for p in params),
+                                                                         B, " ".join(prologue), expr)
 
 
 def tu_text(cases, emulated=False):
